@@ -96,6 +96,12 @@ CLAIMS = {
         "text": "Decides the wrapper's transitions (cache and re-read flag) on success and on Err for both flag states, that all identifier re-reads are single-byte, that under scripted schedules (one byte per read; Interrupted before every read) every grammar path yields the same checksum forms and field provenance as slice decoding, and that the decoder has no global mutable state. Equality for ALL schedules follows from these by argument, not enumeration.",
         "note": TRUST,
     },
+    "C20": {
+        "engine": "ai", "technique": "cross-configuration comparison of independently computed abstract models (decode model, tracker outcomes), taint of std-only time into branches, call-graph and impl/attribute inventories",
+        "design_ref": "DESIGN.md §4 C20",
+        "text": "Decides: all three feature configurations build; the decode model (grammar paths, bit provenance, value and checksum forms) is identical for std and alloc-only (and serde in the thorough tier); abstract Airplanes::action outcomes per frame kind agree modulo cfg-only fields; no branch outside prune is decided by a std-only timestamp; float math goes through libm/core; every type reachable from Frame/Airplanes implements Serialize and Deserialize with no asymmetric attribute. NOT decided: dependency behaviour across features, a concrete format's float round trip.",
+        "note": TRUST,
+    },
     "C03": {
         "engine": "ai",
         "technique": "const-evaluated table comparison + GF(2) bit-provenance abstract interpretation of the checksum loop",
